@@ -89,6 +89,7 @@ func (c *Check) holdDownSemantics(rule string) {
 
 func checkC12(c *Check) {
 	p := c.P
+	c.rendezvousChannels("C12.2 error-seen-before-next-transition", "errorCh")
 	c.dampPeerRule("C12.1 damp-predicate")
 	he := p.Fn("peer.handleError")
 	if he == nil {
